@@ -28,6 +28,8 @@ type c12cfg struct {
 	Labels  map[string]string
 	Custom  uint8 `dialsflag:"my-custom"`
 	Ratio   float32
+	Seen    map[string]struct{} // nil in the template
+	Multi   map[string][]string // nil in the template
 }
 
 func c12run(scalars, colls bool) {
@@ -54,6 +56,8 @@ func c12run(scalars, colls bool) {
 	numsMode := choose("nums", 3)   // absent, once, twice
 	labelsMode := choose("labels", 2)
 	ratioMode := choose("ratio", 3) // absent, in range, out of float32 range
+	seenMode := choose("seen", 3)   // absent, once, three times
+	multiMode := choose("multi", 3) // absent, once, three times
 	n0, n1 := zzverif.Int64("n0"), zzverif.Int64("n1")
 	if hPort {
 		args = append(args, "-port", zzverif.Literal(port, zzverif.StyleDecimal))
@@ -94,6 +98,18 @@ func c12run(scalars, colls bool) {
 	}
 	if hCustom {
 		args = append(args, "-my-custom", zzverif.LiteralU(custom, zzverif.StyleDecimal))
+	}
+	if seenMode >= 1 {
+		args = append(args, "-seen", "a")
+	}
+	if multiMode >= 1 {
+		args = append(args, "-multi", "k:v1")
+	}
+	if seenMode == 2 {
+		args = append(args, "-seen", "b", "-seen", "c")
+	}
+	if multiMode == 2 {
+		args = append(args, "-multi", "k:v2", "-multi", "k2:w")
 	}
 	switch ratioMode {
 	case 1:
@@ -190,6 +206,27 @@ func c12run(scalars, colls bool) {
 		zzverif.Assert(f("Labels").Len() == 2, "C12 -labels: repeated map flags must accumulate")
 	}
 	zzverif.Assert(f("Ratio").IsNil() == (ratioMode == 0), "C12 -ratio: leaf set/unset wrongly")
+	zzverif.Assert(f("Seen").IsNil() == (seenMode == 0), "C12 -seen: set leaf set/unset wrongly")
+	if seenMode != 0 && !f("Seen").IsNil() {
+		want := []string{"a"}
+		if seenMode == 2 {
+			want = []string{"a", "b", "c"}
+		}
+		okAll := f("Seen").Len() == len(want)
+		for _, w := range want {
+			okAll = okAll && f("Seen").MapIndex(reflect.ValueOf(w)).IsValid()
+		}
+		zzverif.Assert(okAll, "C12 -seen: repeated set flags must accumulate (every occurrence, the first included)")
+	}
+	zzverif.Assert(f("Multi").IsNil() == (multiMode == 0), "C12 -multi: map leaf set/unset wrongly")
+	if multiMode != 0 && !f("Multi").IsNil() {
+		kv := f("Multi").MapIndex(reflect.ValueOf("k"))
+		if multiMode == 1 {
+			zzverif.Assert(f("Multi").Len() == 1 && kv.IsValid() && kv.Len() == 1 && kv.Index(0).String() == "v1", "C12 -multi: wrong value")
+		} else {
+			zzverif.Assert(f("Multi").Len() == 2 && kv.IsValid() && kv.Len() == 2 && kv.Index(0).String() == "v1" && kv.Index(1).String() == "v2", "C12 -multi: repeated map flags must accumulate (every occurrence, the first included)")
+		}
+	}
 	zzverif.Reached("c12-end")
 }
 
